@@ -191,6 +191,13 @@ def run(ctx, repo, tier):
               witness=f"value {ten}")
 
     # ---------------------------------------------------------------- ORD: ascending on every branch
+    # private parameterless steps called from __init__ (`self._parse(); self._convert()` ...) are spliced in: the path rules below
+    # are about the constructor as a whole
+    from ..astutil import splice_self_calls
+    from ..model import FunctionInfo, set_parents
+    spliced = splice_self_calls(ci, init.node)
+    set_parents(spliced)
+    init = FunctionInfo(init.name, init.qualname, init.module, spliced, init.cls)
     oa = OrdAnalysis(repo, init).run()
     k = oa.env.get("self.trans_grid")
     ctx.instance("ORD")
